@@ -615,10 +615,11 @@ func runC19(c c19Case) *Violation {
 }
 
 func TestC19(t *testing.T) {
-	Ev.Rule = "case = engine-written file (1-8 generated rows, 1-3 blocks, none/snappy/zstd) + either 1-3 byte mutations (bit flip, burst, zero fill, truncation, extension, splice) targeted at footer / metadata JSON / file-level filter section / block filter region / row data, or 1-2 framing fields (region offset/size, file filter size, block row-data offset/size, filter offset/size) set to hostile values (-1, 0, +-1 around the current value and the file size, 2^31, 2^32, 2^40, MaxInt64, MaxInt64-cur(+1), MinInt64) and re-framed with a correct CRC by the harness's own footer writer. Oracle: no panic; TotalAlloc of each helper call <= 16*fileSize + 4 MiB (+ declared uncompressed sizes); accepted metadata is in bounds; queries (filesystem store = metadata from the file; MemoryMetaStore holding the original metadata; after a Merge over the corrupted source) return only rows that were written, and with MetaStore-held metadata either the exact answer or a non-nil Err. transplant phase: a block's row data replaced by a complete valid compressed stream of identical compressed and uncompressed size (byte-wise isomorphic rows written to a different store), in the MetaStore-held, filesystem and merge modes: never a row that was not written to this store, and exact answer or error. Non-trivial: the bytes changed and (the footer still parses, or the independent reader detects the damage in row data / a filter section); distinct by hash(mutation, compression, size, mode)."
+	Ev.Rule = "case = engine-written file (1-8 generated rows, 1-3 blocks, none/snappy/zstd) + either 1-3 byte mutations (bit flip, burst, zero fill, truncation, extension, splice) targeted at footer / metadata JSON / file-level filter section / block filter region / row data, or 1-2 framing fields (region offset/size, file filter size, block row-data offset/size, filter offset/size) set to hostile values (-1, 0, +-1 around the current value and the file size, 2^31, 2^32, 2^40, MaxInt64, MaxInt64-cur(+1), MinInt64) and re-framed with a correct CRC by the harness's own footer writer. Oracle: no panic; TotalAlloc of each helper call <= 16*fileSize + 4 MiB (+ declared uncompressed sizes); accepted metadata is in bounds; queries (filesystem store = metadata from the file; MemoryMetaStore holding the original metadata; after a Merge over the corrupted source) return only rows that were written, and with MetaStore-held metadata either the exact answer or a non-nil Err. metahostile phase: 2-4 healthy files, the MetaStore holding a hostile filter section extent (offset / size of one block's section) for one of them, queries on a budget of 1-8 workers: no panic, only written rows, exact answer or error. transplant phase: a block's row data replaced by a complete valid compressed stream of identical compressed and uncompressed size (byte-wise isomorphic rows written to a different store), in the MetaStore-held, filesystem and merge modes: never a row that was not written to this store, and exact answer or error. Non-trivial: the bytes changed and (the footer still parses, or the independent reader detects the damage in row data / a filter section); distinct by hash(mutation, compression, size, mode)."
 	Ev.Assumptions = []string{"rows returned are compared with written rows through a JSON round trip", "allocation is measured with runtime.MemStats.TotalAlloc around single-goroutine helper calls"}
 	runChecks(t, "corrupt", 3000, 150000, genC19(), runC19)
 	runChecks(t, "transplant", 300, 10000, genC19Transplant(), runC19Transplant)
+	runChecks(t, "metahostile", 500, 20000, genC19MetaHostile(), runC19MetaHostile)
 }
 
 var _ = sort.Ints
